@@ -1,14 +1,14 @@
-// Correspondence harness for dcl_data_structures (bitmap, sliding window, grid).
+// Correspondence harness for dcl_data_structures (sliding window).
 // stdin : one case per line: <family> <int> ...
 // stdout: one line per case: <int> ...   ("PANIC" if the implementation panicked)
 use std::io::{self, BufRead, Write};
 use std::panic;
 
-mod bitmap;
+mod window;
 
 fn run_case(fam: &str, args: &[i128]) -> Vec<i128> {
     match fam {
-        "bitmap" => bitmap::run(args),
+        f if f.starts_with("window_") => window::run(&f[7..], args),
         _ => panic!("unknown family {fam}"),
     }
 }
